@@ -133,12 +133,17 @@ func run(c *mon.Ctx) {
 			ds = append(ds, d)
 		}
 		s.SetDescriptors(ds)
+		stuff := 0
+		if r.Chance(3) {
+			stuff = 1 + r.Intn(8)
+			s.SetAlignmentStuffing(uint(stuff))
+		}
 		sec := s.UpdateData()
 		c.Eval(1)
 		if len(sec) < 4 || ref.CRC32MPEG2(sec) != 0 {
 			c.Fail("crc:emitted-scte35", "the CRC-32/MPEG-2 of a section emitted by UpdateData is not zero", wit{Input: mon.Hex(sec)})
 		}
-		c.Class(fmt.Sprintf("emitted-scte35/cmd=%d/descs=%d", s.Command(), len(ds)))
+		c.Class(fmt.Sprintf("emitted-scte35/cmd=%d/descs=%d/stuffing=%v", s.Command(), len(ds), stuff > 0))
 	})
 	c.Stream("emitted-pmt", c.N(2000, 1000000), func(i int, r *gen.Rand) {
 		// a small reference-built PMT in one packet, filtered to a subset of its streams
